@@ -363,6 +363,7 @@ type zzvStepOpt struct {
 	succeed bool // assume the operation succeeds (a failed prefix operation is a shorter history)
 	assert  bool // check the per-operation outcome rules (C22 ids)
 	skipMode bool // leave PinWithMode out of the menu
+	noPins   bool // only Unpin and Update
 }
 
 type zzvOpInfo struct {
@@ -385,6 +386,9 @@ func zzvStep(p *pinner, d *zzvDag, m *zzvModel, o zzvStepOpt) zzvOpInfo {
 	}
 	op := verifrt.NondetRange("op", 0, nOps)
 	if o.skipMode && op == 2 {
+		verifrt.Assume(false)
+	}
+	if o.noPins && op <= 2 {
 		verifrt.Assume(false)
 	}
 	ctx, cancel := context.WithCancel(context.Background())
